@@ -327,7 +327,10 @@ def canonical_blocks(tree):
        while True: if c: break ; S           -> while not c: S                 (no else clause)
        v = [] ; for x in it: v.append(e)     -> v = [e for x in it]            (also {} with v[k] = e, set() with v.add(e);
                                                                                 nested for / if without else; see _loop_as_comprehension)
-       with np.errstate(..): S               -> S                              (warning settings change no value)"""
+       with np.errstate(..): S               -> S                              (warning settings change no value)
+       a, b = x, y                           -> a = x; b = y                   (plain names, no right-hand side reads a target)
+       c = E; if c: S                        -> if E: S                        (c read nowhere else)
+       for m in S: (a, b) = m; R             -> for (a, b) in S: R             (m read nowhere else)"""
     def scope_names(fn):
         return [x for x in ast.walk(fn) if isinstance(x, ast.Name)]
 
@@ -356,6 +359,33 @@ def canonical_blocks(tree):
                 st.test = ast.copy_location(t.operand if isinstance(t, ast.UnaryOp) and isinstance(t.op, ast.Not)
                                             else ast.UnaryOp(op=ast.Not(), operand=t), t)
                 st.body = st.body[1:]
+            # a, b = x, y  ->  a = x; b = y     (plain names; no right-hand side reads a target)
+            if isinstance(st, ast.Assign) and len(st.targets) == 1 and isinstance(st.targets[0], ast.Tuple) and isinstance(st.value, ast.Tuple) \
+                    and len(st.targets[0].elts) == len(st.value.elts) and all(isinstance(t_, ast.Name) for t_ in st.targets[0].elts) \
+                    and not any(isinstance(v_, ast.Starred) for v_ in st.value.elts):
+                tn = [t_.id for t_ in st.targets[0].elts]
+                if len(set(tn)) == len(tn) and not any(isinstance(x, ast.Name) and x.id in tn for v_ in st.value.elts for x in ast.walk(v_)):
+                    parts = [ast.copy_location(ast.Assign(targets=[t_], value=v_), st) for t_, v_ in zip(st.targets[0].elts, st.value.elts)]
+                    block = block[:i] + parts + block[i + 1:]
+                    continue
+            # c = E; if c: ..   ->  if E: ..      (c read nowhere else in the function)
+            if isinstance(st, ast.Assign) and len(st.targets) == 1 and isinstance(st.targets[0], ast.Name) and i + 1 < len(block) \
+                    and isinstance(block[i + 1], ast.If) and isinstance(block[i + 1].test, ast.Name) and block[i + 1].test.id == st.targets[0].id \
+                    and fn_names is not None and isinstance(st.value, (ast.Call, ast.BoolOp, ast.Compare, ast.UnaryOp)):
+                nm = st.targets[0].id
+                if sum(1 for x in fn_names if x.id == nm) == 2:
+                    block[i + 1].test = st.value
+                    block = block[:i] + block[i + 1:]
+                    continue
+            # for m in S: (a, b) = m; ..   ->  for (a, b) in S: ..      (m read nowhere else in the function)
+            if isinstance(st, ast.For) and isinstance(st.target, ast.Name) and st.body and fn_names is not None:
+                f0 = st.body[0]
+                if isinstance(f0, ast.Assign) and len(f0.targets) == 1 and isinstance(f0.targets[0], (ast.Tuple, ast.List)) \
+                        and isinstance(f0.value, ast.Name) and f0.value.id == st.target.id and len(st.body) > 1 \
+                        and all(isinstance(e_, ast.Name) for e_ in f0.targets[0].elts) \
+                        and sum(1 for x in fn_names if x.id == st.target.id) == 2:
+                    st.target = f0.targets[0]
+                    st.body = st.body[1:]
             if isinstance(st, ast.Assign) and i + 1 < len(block) and isinstance(block[i + 1], ast.For) and fn_names is not None:
                 new = _loop_as_comprehension(st, block[i + 1], fn_names)
                 if new is not None:
@@ -390,10 +420,42 @@ class Module:
         self.classes = {}
         self.imports = {}       # local name -> dotted origin
         self._index(self.tree.body, '', None, None)
+        self._positional_calls()
         # parent links
         for n in ast.walk(self.tree):
             for ch in ast.iter_child_nodes(n):
                 ch._parent = n
+
+    def _positional_calls(self):
+        """f(a, eps=e) -> f(a, e) for callees defined in this module (module-level functions by name, methods through `self`): a keyword
+        that names the next positional parameter is that positional argument.  Callees with *args / **kwargs / decorators are left."""
+        def params(fi, skip_self):
+            a = fi.node.args
+            if a.vararg or a.kwarg or a.posonlyargs or fi.node.decorator_list:
+                return None
+            ps = [x.arg for x in a.args]
+            return ps[1:] if skip_self and ps and ps[0] == 'self' else ps
+
+        def visit(node, cls):
+            for ch in ast.iter_child_nodes(node):
+                visit(ch, node.name if isinstance(node, ast.ClassDef) else cls)
+            if not isinstance(node, ast.Call) or not node.keywords or any(k.arg is None for k in node.keywords) \
+                    or any(isinstance(a, ast.Starred) for a in node.args):
+                return
+            ps = None
+            if isinstance(node.func, ast.Name) and node.func.id in self.funcs and self.funcs[node.func.id].cls is None:
+                ps = params(self.funcs[node.func.id], False)
+            elif isinstance(node.func, ast.Attribute) and isinstance(node.func.value, ast.Name) and node.func.value.id == 'self' and cls \
+                    and ('%s.%s' % (cls, node.func.attr)) in self.funcs:
+                ps = params(self.funcs['%s.%s' % (cls, node.func.attr)], True)
+            if ps is None:
+                return
+            kw = {k.arg: k for k in node.keywords}
+            while len(node.args) < len(ps) and ps[len(node.args)] in kw:
+                k = kw.pop(ps[len(node.args)])
+                node.args.append(k.value)
+                node.keywords.remove(k)
+        visit(self.tree, None)
 
     def _index(self, body, prefix, cls, parent):
         for n in body:
